@@ -765,9 +765,122 @@ class MergeFlow(Engine):
                 rules = sorted({self.findings[k].rule for k in held})
                 for k in held:
                     del self.findings[k]
+                self._stored_order()
                 raise AnalysisError(f'collect-then-apply: positions in the running order are stored in a container for a later loop to use; {len(held)} finding(s) of '
                                     f'{rules} withheld - outside the index abstraction')
         return self
+
+    def _stored_order(self):
+        """STORED-ORDER: the one collect-then-apply shape that *is* decided, syntactically, on merge() itself:
+
+            L = []
+            for src in self.<sources>:  ... _, i = <search>(...) ... L.append(i)          # positions, in message order
+            for j in ORDER(L):  del P[j]  |  P.pop(j)  |  P.remove(P[j])                      # spent by bare position
+
+        Deleting by positions looked up beforehand is right only when they are spent in strictly descending order without
+        repeats.  ORDER = L, reversed(L), L[::-1], sorted(L): definitely not descending for some message (the message names
+        elements in any order).  ORDER = sorted(L, reverse=True) and friends without set(): a reference named twice is spent
+        twice and removes an element the message did not name - unless merge() tests membership of L somewhere (then: no
+        verdict).  Everything else (set-based orders, arithmetic on the position, other edits): no verdict, as before."""
+        fi = self.prog.cls(self.cname).find('merge')
+        if fi is None:
+            return
+        fn = fi.node
+        lists = {t.id for n in ast.walk(fn) if isinstance(n, ast.Assign) and isinstance(n.value, ast.List) and not n.value.elts
+                 for t in n.targets if isinstance(t, ast.Name)}
+        searched = set()            # names bound by tuple-unpacking a call (`item, item_index = find_child(...)`)
+        for n in ast.walk(fn):
+            if isinstance(n, ast.Assign) and isinstance(n.value, ast.Call):
+                for t in n.targets:
+                    if isinstance(t, ast.Tuple):
+                        searched |= {e.id for e in t.elts if isinstance(e, ast.Name)}
+        from_message = {}
+        for loop in ast.walk(fn):
+            if not isinstance(loop, ast.For) or not norm(loop.iter).startswith('self.'):
+                continue
+            for n in ast.walk(loop):
+                if isinstance(n, ast.Call) and isinstance(n.func, ast.Attribute) and n.func.attr == 'append' and isinstance(n.func.value, ast.Name) \
+                        and n.func.value.id in lists and len(n.args) == 1 and isinstance(n.args[0], ast.Name) and n.args[0].id in searched:
+                    from_message[n.func.value.id] = loop
+        if not from_message:
+            return
+        for name in from_message:
+            others = [n for n in ast.walk(fn) if isinstance(n, ast.Name) and n.id == name]
+            guarded = any(isinstance(n, ast.Compare) and any(isinstance(o, (ast.In, ast.NotIn)) for o in n.ops)
+                          and any(isinstance(c, ast.Name) and c.id == name for c in n.comparators) for n in ast.walk(fn))
+            for loop in ast.walk(fn):
+                if not isinstance(loop, ast.For) or not isinstance(loop.target, ast.Name) or loop is from_message[name]:
+                    continue
+                order = self._order_of(loop.iter, name)
+                if order is None:
+                    continue
+                j = loop.target.id
+                if any(isinstance(n, ast.Name) and n.id == j and isinstance(n.ctx, ast.Store) for st_ in loop.body for n in ast.walk(st_)):
+                    continue
+                spent = []
+                clean = True
+                for st_ in loop.body:
+                    for n in ast.walk(st_):
+                        if isinstance(n, ast.Name) and n.id == j:
+                            spent.append(n)
+                    if isinstance(st_, ast.Delete) and len(st_.targets) == 1 and isinstance(st_.targets[0], ast.Subscript) \
+                            and isinstance(st_.targets[0].slice, ast.Name) and st_.targets[0].slice.id == j:
+                        continue
+                    if isinstance(st_, ast.Expr) and isinstance(st_.value, ast.Call) and isinstance(st_.value.func, ast.Attribute):
+                        c = st_.value
+                        if c.func.attr == 'pop' and len(c.args) == 1 and isinstance(c.args[0], ast.Name) and c.args[0].id == j:
+                            continue
+                        if c.func.attr == 'remove' and len(c.args) == 1 and isinstance(c.args[0], ast.Subscript) and isinstance(c.args[0].slice, ast.Name) \
+                                and c.args[0].slice.id == j and norm(c.args[0].value) == norm(c.func.value):
+                            continue
+                    clean = False
+                if not clean or len(spent) != len(loop.body) or len(others) < 3:
+                    continue
+                why = None
+                if order in ('as-is', 'reversed', 'ascending'):
+                    why = (f'the positions in `{name}` were looked up in message order before anything was removed and are spent {order}: a message naming '
+                           'the elements in another order than they stand (or, ascending, any two elements) removes an element it does not name and keeps one it names')
+                elif order == 'descending-with-repeats' and not guarded:
+                    why = (f'the positions in `{name}` are spent in descending order but a reference named twice is stored twice: the second deletion at that '
+                           'position removes the next element, which the message does not name')
+                if why:
+                    cons = 'for ... in ' + norm(loop.iter)
+                    for rule in ('IDX-FRESH', 'FRAME'):
+                        fd = Finding(rule, fi.short, cons, 'STORED-ORDER: ' + why, fi.file, loop.lineno, self.entry, [])
+                        self.findings.setdefault(fd.key, fd)
+
+    @staticmethod
+    def _order_of(it, name):
+        """how the apply loop orders the stored positions: as-is | reversed | ascending | descending-with-repeats | None (anything else)"""
+        def is_l(e):
+            return isinstance(e, ast.Name) and e.id == name
+
+        def rev_kw(c):
+            return len(c.keywords) == 1 and c.keywords[0].arg == 'reverse' and isinstance(c.keywords[0].value, ast.Constant) and c.keywords[0].value.value is True
+
+        def rev_slice(e):
+            return isinstance(e, ast.Subscript) and isinstance(e.slice, ast.Slice) and e.slice.lower is None and e.slice.upper is None \
+                and isinstance(e.slice.step, ast.UnaryOp) and isinstance(e.slice.step.op, ast.USub) and isinstance(e.slice.step.operand, ast.Constant) \
+                and e.slice.step.operand.value == 1
+
+        def call(e, fname):
+            return isinstance(e, ast.Call) and isinstance(e.func, ast.Name) and e.func.id == fname and len(e.args) == 1
+        if is_l(it):
+            return 'as-is'
+        if call(it, 'reversed') and not it.keywords and is_l(it.args[0]):
+            return 'reversed'
+        if rev_slice(it) and is_l(it.value):
+            return 'reversed'
+        if call(it, 'sorted') and is_l(it.args[0]):
+            if not it.keywords:
+                return 'ascending'
+            if rev_kw(it):
+                return 'descending-with-repeats'
+        if call(it, 'reversed') and not it.keywords and call(it.args[0], 'sorted') and not it.args[0].keywords and is_l(it.args[0].args[0]):
+            return 'descending-with-repeats'
+        if rev_slice(it) and call(it.value, 'sorted') and not it.value.keywords and is_l(it.value.args[0]):
+            return 'descending-with-repeats'
+        return None
 
     def run_refusal(self, marker: str):
         """RunningOrder.__add__ on a completed running order (marker present) and a message about which *nothing* is
